@@ -207,7 +207,7 @@ def run(check):
     check.rule = ("(1) structural corruption: every key (to depth 7) of 5 seed workflows (all step fields, foreach, all tags, explicit output schema) replaced by each of %d "
                   "YAML shapes (scalars, empty, null, lists, maps, nested, number-like, anchors/aliases, merge keys, non-scalar keys, every engine tag on every node kind "
                   "with malformed expressions, unknown and core-schema tags) and removed (quick: 6 shapes per key); (2) sub-workflow trees: self/mutual recursion, nesting "
-                  "depth 3, sub-directories, missing/unreadable/empty files, directory instead of file, odd `kind`/`workflow` values; (3) %d input documents decoded and run; "
+                  "depth 3, wide trees (nested and plain siblings, shared leaves; repeated), sub-directories, missing/empty files, directory instead of file, odd `kind`/`workflow` values; (3) %d input documents decoded and run; "
                   "(4) seeded byte-level mutations; all through engine.New().Parse (+Run) from files on disk in child processes; oracle: child must not panic, overflow its "
                   "stack or stall (watchdog), expected found/missing verdicts for the sub-workflow trees; distinct = (corruption class, outcome)") % (len(SHAPES), len(INPUT_DOCS))
     check.assumptions = ["coverage-guided native fuzzing is not part of the deciding list (not seed-deterministic)"]
